@@ -352,7 +352,8 @@ func (s *State) evalIndexExpression(left object.Object, node *ast.IndexExpressio
 	if node.Token.Type() == token.DOT {
 		// index is the string value and not an identifier to resolve.
 		key := node.Index.Value()
-		if key.Type() != token.STRING && key.Type() != token.IDENT {
+		// (a field named like an integer parameter or loop variable was rewritten to its register: same name)
+		if key.Type() != token.STRING && key.Type() != token.IDENT && key.Type() != token.REGISTER {
 			return s.Errorf("index expression with . not string: %s", key.Literal())
 		}
 		return s.evalIndexExpressionIdx(left, object.String{Value: key.Literal()})
@@ -451,7 +452,7 @@ func (s *State) evalDelete(node ast.Node) object.Object {
 		}
 		// index is the string value and not an identifier to resolve.
 		key := idxE.Index.Value()
-		if key.Type() != token.STRING && key.Type() != token.IDENT {
+		if key.Type() != token.STRING && key.Type() != token.IDENT && key.Type() != token.REGISTER { // see evalIndexExpression.
 			return s.Errorf("del expression with . not a string: %s", key.Literal())
 		}
 		index := object.String{Value: key.Literal()}
@@ -915,6 +916,21 @@ func ModifyRegister(register *object.Register, in ast.Node) (ast.Node, bool) {
 	case *ast.FunctionLiteral:
 		// skip lambda/functions in functions.
 		return nil, false
+	case *ast.PrefixExpression:
+		// ++x / --x: like the postfix form, not handled on registers.
+		if (in.Type() == token.INCR || in.Type() == token.DECR) && in.Right == ast.Node(register) {
+			return nil, false
+		}
+	case *ast.Builtin:
+		// del(x) needs the variable, not its register (children are rewritten first, so x already is one).
+		if in.Type() == token.DEL && len(in.Parameters) == 1 && in.Parameters[0] == ast.Node(register) {
+			return nil, false
+		}
+	case *ast.ForExpression:
+		// for x = ... { } reusing the name as loop variable: same, needs the variable.
+		if ie, ok := in.Condition.(*ast.InfixExpression); ok && ie.Left == ast.Node(register) {
+			return nil, false
+		}
 	}
 	return in, true
 }
